@@ -1081,12 +1081,15 @@ class Evaluator:
         if isinstance(node, ast.Call):
             return self.eval_call(node, env, fr)
         if isinstance(node, ast.IfExp):
+            memo = fr.memo_get(node)
+            if memo is not _MISSING:
+                return memo
             c = self.cond(node.test, env, fr)
             if c is True:
                 return self.eval(node.body, env, fr)
             if c is False:
                 return self.eval(node.orelse, env, fr)
-            raise Undecided("conditional expression on symbolic test", fr.f.loc(node))
+            raise _NeedSplit(node, [([c], self.eval(node.body, env, fr)), ([c_not(c)], self.eval(node.orelse, env, fr))])
         if isinstance(node, ast.ListComp) and len(node.generators) == 1:
             return self.eval_listcomp(node, env, fr)
         raise Undecided("expression kind %s not modelled: %s" % (type(node).__name__, unparse(node)[:60]),
@@ -1325,7 +1328,7 @@ class Evaluator:
         if op == "Mod":
             if ra.is_const() and rb.is_const() and rb.const_value() != 0:
                 return Rat.const(ra.const_value() % rb.const_value())
-            return fatom("mod", ra, rb)
+            return self.mod_of(ra, rb)
         raise Undecided("operator %s" % op, fr.f.loc(node))
 
     def power(self, base, exp, fr, node):
@@ -1584,6 +1587,14 @@ class Evaluator:
                     return ARangeV(rs[0], rs[1])
         raise Undecided("builtin %s(%s) not modelled" % (name, unparse(node)[:50]), fr.f.loc(node))
 
+    def mod_of(self, a, b):
+        """a % b = a - b*floor(a/b) when the floor is computable over the declared integer atoms"""
+        if b.is_const() and b.const_value() > 0:
+            fl = self.floor_of(a / b)
+            if fl is not None:
+                return a - b * fl
+        return fatom("mod", a, b)
+
     def abs_of(self, v):
         """|v| ; a denominator known to be positive is pulled out so that |x/N| and |x|/N share a form"""
         if v.is_const():
@@ -1654,7 +1665,7 @@ class Evaluator:
             if a is not None and b is not None:
                 if a.is_const() and b.is_const():
                     return Rat.const(a.const_value() % b.const_value())
-                return fatom("mod", a, b)
+                return self.mod_of(a, b)
         if attr == "log" and len(args) in (1, 2):
             a = _as_rat(args[0])
             if a is not None:
